@@ -146,31 +146,39 @@ def native_replay(isa, ob, lab, model):
     elif out.get('exit_id') is None or out['exit_id'] < 0 or out['exit_id'] >= len(exits) or exits[out['exit_id']] != lab:
         diffs.append(f"exit {out.get('exit_id')} instead of {lab}")
 
+    def differs(native, v, t):
+        # a term that mentions a label address may or may not evaluate to a code address under the model (the label
+        # values of the model are arbitrary 64-bit numbers): accept the raw value as well as its native translation
+        if native == v:
+            return False
+        return native != expect(v, t)
+
     def expect(v, t=None):
         # only terms that mention a label-address variable denote code addresses
         if t is None or isinstance(t, int) or 'A_' not in str(t):
             return v
         for base, name in label_vals.items():
-            if base <= v < base + 64 and name in out['syms']:
-                return out['syms'][name] + (v - base)
+            d = (v - base) & M64          # label addresses are arbitrary 64-bit values in the model: compare modulo 2^64
+            if d < 64 and name in out['syms']:
+                return out['syms'][name] + d
         return v
     if out.get('spdelta') != s_sym.spd:
         diffs.append(f"sp delta {out.get('spdelta')} vs {s_sym.spd}")
     for r, t in s_sym.regs.items():
         if has_fresh(t) or any(nm in str(t) for nm in skip_names):
             continue
-        if expect(ev(t), t) != out['regs'][r]:
+        if differs(out['regs'][r], ev(t), t):
             diffs.append(f"{r}: native {out['regs'][r]:#x}, predicted {expect(ev(t), t):#x}")
     for b in range(env0.N):
         for w in range(8):
             t = s_sym.mem[b][w]
             if has_fresh(t):
                 continue
-            if expect(ev(t), t) != out['heap'][8 * b + w]:
+            if differs(out['heap'][8 * b + w], ev(t), t):
                 diffs.append(f"heap[{b}][{w}]: native {out['heap'][8 * b + w]:#x}, predicted {expect(ev(t)):#x}")
     for o, t in s_sym.stack.items():
         if 0 <= o < env0.stack_hi and not has_fresh(t) and o in out['stack']:
-            if expect(ev(t), t) != out['stack'][o]:
+            if differs(out['stack'][o], ev(t), t):
                 diffs.append(f"stack[{o}]: native {out['stack'][o]:#x}, predicted {expect(ev(t)):#x}")
     if len(out['events']) != len(s_sym.events):
         diffs.append(f"{len(out['events'])} print calls vs {len(s_sym.events)}")
